@@ -619,6 +619,8 @@ def rodrigues(w, theta=None):
 
     """
     w = base.getvector(w)
+    if len(w) not in (1, 3):
+        raise ValueError('argument must be a 1- or 3-vector')
     if base.iszerovec(w, tol=100):
         # for a zero so(n) return unit matrix, theta not relevant
         if len(w) == 1:
